@@ -82,6 +82,7 @@ var vg struct {
 	keBlocks int
 	hellosRead int
 	shSID    []byte // session id of the ServerHello delivered
+	shALPN   string // application protocol selected in the ServerHello delivered
 }
 
 // datagram-stack ghost state (unused on the stream stack)
@@ -265,6 +266,7 @@ func (c *Conn) readHandshake(transcript transcriptHash) (interface{}, error) {
 		if verifSplitInt("sh.alpn", 0, 1) == 1 {
 			sh.alpnProtocol = string(verifNondetBytes("sh.alpn", 1))
 		}
+		vg.shALPN = sh.alpnProtocol
 		vg.shSID = sh.sessionId
 		m = sh
 	case kCert:
@@ -473,6 +475,11 @@ func VerifHarness_client_handshake() {
 	cache := &verifCache{}
 	cfg := &Config{Rand: verifRand{}, Time: func() time.Time { return time.Time{} }, SessionCache: cache}
 	ncert := verifSplitInt("clientCerts", 0, 2)
+	// ALPN is offered in the runs with 0 or 2 client key pairs and not offered in the runs with 1 (the two choices
+	// are independent in the code; coupling them keeps the number of paths down)
+	if ncert != 1 {
+		cfg.NextProtos = []string{"a"}
+	}
 	for i := 0; i < ncert; i++ {
 		cfg.Certificates = append(cfg.Certificates, Certificate{Certificate: [][]byte{{1}}, PrivateKey: verifSigner{}})
 	}
@@ -561,6 +568,8 @@ func VerifHarness_client_handshake() {
 	// handshake message in wire order up to (not including) the peer's Finished
 	verifAssert("C02.client.finishedMatchesAll12", len(vg.finIn) == 12 && len(vg.srvSum) == 12 && bytes.Equal(vg.finIn, vg.srvSum))
 	verifAssert("C03.client.transcriptIsWireOrder", bytes.Equal(vg.srvSeed, vg.wire[:vg.finPos]) || (resumed && bytes.Equal(vg.srvSeed, vg.wire[:vg.finPos])))
+	// C01: the application protocol the client reports is the one the server selected (full and abbreviated alike)
+	verifAssert("C01.client.alpnIsWhatTheServerSelected", c.clientProtocol == vg.shALPN)
 	verifAssert("C03.client.ccsBeforeFinished", vg.n >= 2 && vg.kinds[vg.n-2] == kCCS && vg.kinds[vg.n-1] == kFin)
 	verifAssert("C08.client.oneCCSSent", vg.ccsSent == 1)
 	if verifDatagramStack && vdg.timeouts == 1 && !resumed {
